@@ -388,21 +388,35 @@ func (h *H) txCases() {
 		n        int
 		signers  []uint8
 		validate bool
+		advKey   []byte // replaces the node key of arbiter 0 (signers then all in range and distinct)
+		note     string
 	}
-	scs := []sc{{3, []uint8{3}, false}, {3, []uint8{255}, false}, {0, []uint8{0}, false}, {3, []uint8{0, 1, 2}, false}, {3, []uint8{0, 1, 2}, true},
-		{3, []uint8{1, 1}, true}, {3, []uint8{1, 1}, false}, {3, []uint8{2, 3}, true}, {3, nil, true}}
+	scs := []sc{{n: 3, signers: []uint8{3}, validate: false}, {n: 3, signers: []uint8{255}, validate: false}, {n: 0, signers: []uint8{0}, validate: false}, {n: 3, signers: []uint8{0, 1, 2}, validate: false}, {n: 3, signers: []uint8{0, 1, 2}, validate: true},
+		{n: 3, signers: []uint8{1, 1}, validate: true}, {n: 3, signers: []uint8{1, 1}, validate: false}, {n: 3, signers: []uint8{2, 3}, validate: true}, {n: 3, signers: nil, validate: true}}
 	for i := 0; i < h.run.N(40, 2000); i++ {
 		n := h.rng.Intn(6)
 		var sg []uint8
 		for j := h.rng.Intn(5); j > 0; j-- {
 			sg = append(sg, uint8(h.rng.Intn(n+2)))
 		}
-		scs = append(scs, sc{n, sg, h.rng.Bool()})
+		scs = append(scs, sc{n: n, signers: sg, validate: h.rng.Bool()})
+	}
+	// arbiter node keys are registered by earlier transactions after a DecodePoint test only,
+	// which accepts x >= p: the aggregation must not hand such a key to the curve arithmetic
+	for _, k := range h.advKeys() {
+		if _, err := crypto.DecodePoint(k.key); err != nil {
+			continue // cannot be registered as a node key
+		}
+		scs = append(scs, sc{3, []uint8{0, 1}, false, k.key, k.note}, sc{3, []uint8{1, 0, 2}, true, k.key, k.note})
 	}
 	for _, c := range scs {
 		mock.CurrentArbitrators = nil
 		for j := 0; j < c.n; j++ {
-			a, err := state.NewOriginArbiter(h.ks[j].enc)
+			nk := h.ks[j].enc
+			if j == 0 && c.advKey != nil {
+				nk = c.advKey
+			}
+			a, err := state.NewOriginArbiter(nk)
 			if err != nil {
 				panic(err)
 			}
@@ -415,6 +429,9 @@ func (h *H) txCases() {
 			sgInts[j] = int(x)
 		}
 		in := map[string]interface{}{"arbiters": c.n, "signers": sgInts, "validate": c.validate}
+		if c.advKey != nil {
+			in["arbiter0_node_key"], in["note"] = hx(c.advKey), c.note
+		}
 		out := h.call("transaction.checkSchnorrWithdrawFromSidechain", in, func() bool {
 			err := transaction.CheckSchnorrWithdrawFromSidechainVerif(tx, pld, c.validate)
 			// only the signer loop is modelled: errors of the later key aggregation count as passed
@@ -432,7 +449,7 @@ func (h *H) txCases() {
 		h.sh.Add(fmt.Sprintf("CSigners %d %s %s %s %d", i, lib.CoqBool(c.validate), lib.CoqList(arbs), lib.CoqList(sgs), out))
 		in["out"] = out
 		h.st.LogCase(h.run.Out, i, in)
-		h.st.Count(fmt.Sprintf("signers:%d:%v:%v", c.n, c.signers, c.validate), len(c.signers) > 0, "CSigners")
+		h.st.Count(fmt.Sprintf("signers:%d:%v:%v:%x", c.n, c.signers, c.validate, c.advKey), len(c.signers) > 0, "CSigners")
 	}
 
 	// ---- coinbase outputs: sanity (CheckTransactionOutput) and context
